@@ -40,7 +40,7 @@ pub fn run_check(replay: Option<Value>) -> i32 {
         dim("tol", &tols),
         dim("direction", &["forward", "backward(reflected)"]),
         dim("jacobian", &["user", "finite-difference"]),
-        dim("t_eval_shape", &["13 points incl. both ends", "3 interior points only", "every second accepted time of the plain run and a neighbour 1e-13 away", "13 points, the last one an ulp short of xend"]),
+        dim("t_eval_shape", &["13 points incl. both ends", "3 interior points only", "every second accepted time of the plain run and a neighbour 1e-13 away", "13 points, the last one an ulp short of xend", "257 points incl. both ends"]),
         dim("first_step", &["automatic", "span/37"]),
     ];
     lattice(&mut rep, "c12", &dims, only.as_deref(), |key, idx| {
@@ -61,7 +61,10 @@ pub fn run_check(replay: Option<Value>) -> i32 {
         if idx[6] == 1 {
             c0.first_step = Some(xend / 37.0);
         }
-        let te: Vec<f64> = if idx[5] == 0 {
+        let te: Vec<f64> = if idx[5] == 4 {
+            // more requested times than any default step count
+            (0..=256).map(|i| xend * i as f64 / 256.0).collect()
+        } else if idx[5] == 0 {
             (0..=12).map(|i| xend * i as f64 / 12.0).collect()
         } else if idx[5] == 3 {
             // the integration interval is what the caller said, also when the grid misses xend by rounding
@@ -118,6 +121,8 @@ pub fn run_check(replay: Option<Value>) -> i32 {
                 if ps.t.len() > 4 {
                     c.events.push(EventSpec::new(EvKind::T(ps.t[ps.t.len() / 2])));
                 }
+                // an event function with a restricted domain: not a number from 0.61 of the span on
+                c.events.push(EventSpec::new(EvKind::SqrtUntil(0.61 * xend, xend.signum())));
             }
             let label = format!("{{{}{}{}}}", if with_te { "t_eval " } else { "" }, if with_dense { "dense " } else { "" }, if with_ev { "events" } else { "" });
             let (r1, r2) = (run(&p, &c), run(&p, &c));
